@@ -42,29 +42,27 @@ Print Assumptions C08_lookup_falls_back.
 (* For every conforming call (right number of arguments; or the target is the missing-method handler) and
    whatever the function then does (returns, returns an error, panics): the invocation log of the whole remote
    call is exactly one entry: the function found by [lookup], entered with the arguments converted to its
-   parameter types (for the missing-method handler: the name as called and the argument list).
-   Guard (in [conforms], "_partial"): no argument reaches reflect as a nil interface
-   (C08_nil_interface_argument_refuted). *)
-Theorem C08_exactly_once_partial :
+   parameter types (for the missing-method handler: the name as called and the argument list). *)
+Theorem C08_exactly_once :
   forall fuel hp lower io_dec io_dec_hdrs zero (convert : dopts -> pty -> gval -> gval) (fits : gval -> pty -> Prop)
          impl stack dec_err_text tr_req tr_resp,
   C01_value hp io_dec convert fits -> C01_tuple hp io_dec convert fits ->
   C01_headers hp io_dec_hdrs convert fits -> C01_bool convert ->
   C12_delivers tr_req -> C09_own_response tr_resp ->
   forall co so svc rh rts name args h ops m,
-  request_ok hp lower fits co svc name args h m -> conforms convert so m args ->
+  request_ok hp lower fits co svc name args h m -> conforms m args ->
   client_encode fuel hp co name args h = CEOk ops ->
   snd (invoke fuel hp lower io_dec io_dec_hdrs zero impl stack dec_err_text tr_req tr_resp co so svc rh rts name args h) =
   [(m_id m, entered_args convert so m name args)].
 Proof. intros. eapply exactly_once; eassumption. Qed.
-Print Assumptions C08_exactly_once_partial.
+Print Assumptions C08_exactly_once.
 
 (* ---- remote = local ---------------------------------------------------------------------------------- *)
 
 (* If the function, entered with those arguments, returns vs without error, the caller gets vs converted to its
    declared return types (C01 normal forms; zero values for declared types beyond the results) - and the log is
-   that single entry.  Guards ("_partial"): the shaped result is not itself an error value
-   (C07_response_error_value_refuted) and the nil-interface guard of [conforms]. *)
+   that single entry.  Guard ("_partial"): the shaped result is not itself an error value
+   (C07_response_error_value_refuted). *)
 Theorem C08_equals_local_partial :
   forall fuel hp lower io_dec io_dec_hdrs zero (convert : dopts -> pty -> gval -> gval) (fits : gval -> pty -> Prop)
          impl stack dec_err_text tr_req tr_resp,
@@ -72,7 +70,7 @@ Theorem C08_equals_local_partial :
   C01_headers hp io_dec_hdrs convert fits -> C01_bool convert ->
   C12_delivers tr_req -> C09_own_response tr_resp ->
   forall co so svc rh rts name args h ops m vs ops',
-  request_ok hp lower fits co svc name args h m -> conforms convert so m args -> response_ok fits so rh ->
+  request_ok hp lower fits co svc name args h m -> conforms m args -> response_ok fits so rh ->
   client_encode fuel hp co name args h = CEOk ops ->
   impl (m_id m) (entered_args convert so m name args) = FRet vs None ->
   gval_ok (shape vs) = true -> is_error_value (shape vs) = false -> results_fit fits rts vs ->
@@ -92,12 +90,11 @@ Theorem C08_proxy_equals_local_partial :
   C12_delivers tr_req -> C09_own_response tr_resp ->
   forall co so svc rh s ns tag field ins args h ops m vs ops',
   plain (strip_ctx (proxy_in (p_variadic s) ins)) = Some args ->
-  request_ok hp lower fits co svc (mangle ns tag field) args h m -> conforms convert so m args -> response_ok fits so rh ->
+  request_ok hp lower fits co svc (mangle ns tag field) args h m -> conforms m args -> response_ok fits so rh ->
   client_encode fuel hp co (mangle ns tag field) args h = CEOk ops ->
   impl (m_id m) (entered_args convert so m (mangle ns tag field) args) = FRet vs None ->
   gval_ok (shape vs) = true -> is_error_value (shape vs) = false -> results_fit fits (p_outs s) vs ->
   service_encode fuel hp so (inl (shape vs)) rh = CEOk ops' ->
-  proxy_values_ok s (expected_results zero convert (c_dec co) (p_outs s) vs) ->
   proxy_call fuel hp lower io_dec io_dec_hdrs zero impl stack dec_err_text tr_req tr_resp co so svc rh s ns tag field ins h =
   (let r := expected_results zero convert (c_dec co) (p_outs s) vs in
    let k := Nat.min (length r) (length (p_outs s)) in
@@ -121,7 +118,7 @@ Theorem C08_error_propagates :
   C01_headers hp io_dec_hdrs convert fits -> C01_bool convert ->
   C12_delivers tr_req -> C09_own_response tr_resp ->
   forall co so svc rh rts name args h ops m vs e ops',
-  request_ok hp lower fits co svc name args h m -> conforms convert so m args -> response_ok fits so rh ->
+  request_ok hp lower fits co svc name args h m -> conforms m args -> response_ok fits so rh ->
   client_encode fuel hp co name args h = CEOk ops ->
   impl (m_id m) (entered_args convert so m name args) = FRet vs (Some e) ->
   service_encode fuel hp so (inr (EPlain e)) rh = CEOk ops' ->
@@ -139,7 +136,7 @@ Theorem C08_panic_propagates :
   C01_headers hp io_dec_hdrs convert fits -> C01_bool convert ->
   C12_delivers tr_req -> C09_own_response tr_resp ->
   forall co so svc rh rts name args h ops m p ops',
-  request_ok hp lower fits co svc name args h m -> conforms convert so m args -> response_ok fits so rh ->
+  request_ok hp lower fits co svc name args h m -> conforms m args -> response_ok fits so rh ->
   client_encode fuel hp co name args h = CEOk ops ->
   impl (m_id m) (entered_args convert so m name args) = FPanic p ->
   service_encode fuel hp so (inr (EPanicE p stack)) rh = CEOk ops' ->
@@ -159,7 +156,7 @@ Theorem C08_proxy_error_propagates :
   C12_delivers tr_req -> C09_own_response tr_resp ->
   forall co so svc rh s ns tag field ins args h ops m vs e ops',
   plain (strip_ctx (proxy_in (p_variadic s) ins)) = Some args ->
-  request_ok hp lower fits co svc (mangle ns tag field) args h m -> conforms convert so m args -> response_ok fits so rh ->
+  request_ok hp lower fits co svc (mangle ns tag field) args h m -> conforms m args -> response_ok fits so rh ->
   client_encode fuel hp co (mangle ns tag field) args h = CEOk ops ->
   impl (m_id m) (entered_args convert so m (mangle ns tag field) args) = FRet vs (Some e) ->
   service_encode fuel hp so (inr (EPlain e)) rh = CEOk ops' ->
@@ -187,23 +184,20 @@ Theorem C08_arity_mismatch_is_an_error :
 Proof. intros. eapply arity_mismatch_is_an_error; eassumption. Qed.
 Print Assumptions C08_arity_mismatch_is_an_error.
 
-(* ---- where the faithful model contradicts the statement ------------------------------------------------ *)
+(* ---- nil and interface{} (repaired in /repo by 294f4cd and 74c0bf1) --------------------------------------- *)
 
-(* f(x interface{}) called with nil: locally f runs with nil; remotely the service decodes nil into a nil
-   interface, reflect.ValueOf(nil) is the zero Value, Call panics "reflect: Call using zero Value argument"
-   before the function is entered: the caller gets an error and the function never ran. *)
-Theorem C08_nil_interface_argument_refuted : forall impl stack m name,
+(* f(x interface{}) called with nil: the function is entered with nil, as in the local call *)
+Theorem C08_nil_interface_argument_enters : forall impl stack m name,
   m_missing m = false -> m_velem m = None -> m_params m = [TIface] ->
-  execute impl stack m name [GNil] = (XErr (EPanicE msg_zero_arg stack), []).
-Proof. exact nil_interface_argument_panics. Qed.
-Print Assumptions C08_nil_interface_argument_refuted.
+  execute impl stack m name [GNil] = of_fout stack (m_id m) [GNil] (impl (m_id m) [GNil]).
+Proof. exact nil_interface_argument_enters. Qed.
+Print Assumptions C08_nil_interface_argument_enters.
 
-(* func() interface{} through a proxy, the service function returns nil: the proxy function panics in the caller
-   ("reflect: function created by MakeFunc using closure returned zero Value") instead of returning nil. *)
-Theorem C08_nil_interface_result_refuted : forall zero err,
-  proxy_out zero {| p_variadic := false; p_outs := [TIface]; p_err := err |} (RRes [GNil]) = PPanic msg_makefunc_zero.
-Proof. exact nil_interface_result_panics. Qed.
-Print Assumptions C08_nil_interface_result_refuted.
+(* func() interface{} through a proxy, the service function returns nil: the proxy returns nil *)
+Theorem C08_nil_interface_result_returns : forall zero err,
+  proxy_out zero {| p_variadic := false; p_outs := [TIface]; p_err := err |} (RRes [GNil]) = PRet [GNil] None.
+Proof. exact nil_interface_result_returns. Qed.
+Print Assumptions C08_nil_interface_result_returns.
 
 (* ---- non-vacuity --------------------------------------------------------------------------------------- *)
 
@@ -228,7 +222,7 @@ Proof.
   destruct (C01_premises_satisfiable []) as (H1 & H2 & H3 & H4).
   assert (Hreq : request_ok [] id_lower toy_fits ref_client svc1 (m_name m_and) [GBool true; GBool true] [] m_and).
   { constructor; try reflexivity; [constructor|discriminate|cbn; repeat split]. }
-  assert (Hconf : conforms toy_convert so1 m_and [GBool true; GBool true]) by (right; split; reflexivity).
+  assert (Hconf : conforms m_and [GBool true; GBool true]) by (right; reflexivity).
   assert (Hresp : response_ok toy_fits so1 []) by (constructor; try reflexivity; [constructor|discriminate]).
   refine (C08_equals_local_partial 10 [] id_lower toy_dec toy_dec_hdrs (fun _ => GNil) toy_convert toy_fits
             impl_and [] [] wire_identity same_response H1 H2 H3 H4 (fun b => eq_refl) (fun b => eq_refl)
